@@ -17,11 +17,26 @@ import (
 
 type c18Combo struct {
 	F, S, O, Y, Z, N, P, C, U, V, A, B, E bool
+	// the ways a switch can be present (0 = the plain one)
+	SVar int // stdin: 0 = a pipe, 1 = redirected from a regular file
+	EVar int // key pair in the environment: see c18EnvVars
 }
+
+// c18EnvVars: what "key pair in the environment" can look like.  Only a variable with a non-empty value
+// supplies its half of the pair.
+var c18EnvVars = []struct {
+	name     string
+	pub, prv int // 0 = unset, 1 = set to the key, 2 = set to the empty string
+}{
+	{"both", 1, 1}, {"public-only", 1, 0}, {"private-only", 0, 1}, {"public-empty", 2, 1}, {"private-empty", 1, 2}, {"both-empty", 2, 2},
+}
+
+func (k c18Combo) envPub() bool { return k.E && c18EnvVars[k.EVar].pub == 1 }
+func (k c18Combo) envPrv() bool { return k.E && c18EnvVars[k.EVar].prv == 1 }
 
 func c18FromMask(m int) c18Combo {
 	b := func(i int) bool { return m&(1<<i) != 0 }
-	return c18Combo{b(0), b(1), b(2), b(3), b(4), b(5), b(6), b(7), b(8), b(9), b(10), b(11), b(12)}
+	return c18Combo{F: b(0), S: b(1), O: b(2), Y: b(3), Z: b(4), N: b(5), P: b(6), C: b(7), U: b(8), V: b(9), A: b(10), B: b(11), E: b(12)}
 }
 
 func (k c18Combo) String() string {
@@ -32,7 +47,14 @@ func (k c18Combo) String() string {
 	}{{k.F, "file"}, {k.S, "stdin"}, {k.O, "-o"}, {k.Y, "--encrypt"}, {k.Z, "--redactFieldsRegexp"}, {k.N, "--redactFieldNames"}, {k.P, "--atlasProjectId"}, {k.C, "--atlasClusterName"},
 		{k.U, "--atlasPublicKey"}, {k.V, "--atlasPrivateKey"}, {k.A, "--atlasLogStartDate"}, {k.B, "--atlasLogEndDate"}, {k.E, "env-keys"}} {
 		if x.on {
-			p = append(p, x.n)
+			n := x.n
+			if n == "stdin" && k.SVar == 1 {
+				n = "stdin(regular file)"
+			}
+			if n == "env-keys" && k.EVar != 0 {
+				n = "env-keys(" + c18EnvVars[k.EVar].name + ")"
+			}
+			p = append(p, n)
 		}
 	}
 	if len(p) == 0 {
@@ -46,7 +68,7 @@ func (k c18Combo) String() string {
 func c18Rule(k c18Combo) (string, string) {
 	atlasAny := k.P || k.C || k.U || k.V || k.A || k.B
 	atlasMode := k.P && k.C
-	keys := (k.U || k.E) && (k.V || k.E)
+	keys := (k.U || k.envPub()) && (k.V || k.envPrv())
 	xor := func(a, b bool) bool { return a != b }
 	switch {
 	case k.Z && k.N:
@@ -95,129 +117,156 @@ func c18Run(c *Ctx) {
 		if !c.Mine(int64(mask)) {
 			continue
 		}
-		k := c18FromMask(mask)
-		class, rule := c18Rule(k)
-		for pre := 0; pre < 2; pre++ {
-			if pre == 1 && !k.O {
-				continue // nothing to pre-create
-			}
-			sand := freshDir(base, "sand")
-			os.Mkdir(filepath.Join(sand, "tmp"), 0o755)
-			os.WriteFile(filepath.Join(sand, "in.log"), []byte(logLine+"\n"), 0o644)
-			if pre == 1 {
-				os.WriteFile(filepath.Join(sand, "out.log"), []byte(c18Sentinel), 0o644)
-				os.WriteFile(filepath.Join(sand, "out.log.0"), []byte(c18Sentinel), 0o644)
-			}
-			os.Remove(reqLog)
-			args := []string{"redact"}
-			if k.F {
-				args = append(args, "in.log")
-			}
-			if k.O {
-				args = append(args, "--outputFile", "out.log")
-			}
-			if k.Y {
-				args = append(args, "--encrypt")
-			}
-			if k.Z {
-				args = append(args, "--redactFieldsRegexp", "^(ssn|email)$")
-			}
-			if k.N {
-				args = append(args, "--redactFieldNames", "shop.orders")
-			}
-			if k.P {
-				args = append(args, "--atlasProjectId", "649c9a785e44024904135520")
-			}
-			if k.C {
-				args = append(args, "--atlasClusterName", "mycluster")
-			}
-			if k.U {
-				args = append(args, "--atlasPublicKey", script.Public)
-			}
-			if k.V {
-				args = append(args, "--atlasPrivateKey", script.Private)
-			}
-			if k.A {
-				args = append(args, "--atlasLogStartDate", "1700000000")
-			}
-			if k.B {
-				args = append(args, "--atlasLogEndDate", "1700003600")
-			}
-			env := []string{"VERIF_MODE=child-cli", "VERIF_ATLAS_SCRIPT=" + scriptPath, "VERIF_ATLAS_LOG=" + reqLog}
-			if k.E {
-				env = append(env, "ATLAS_PUBLIC_KEY="+script.Public, "ATLAS_PRIVATE_KEY="+script.Private)
-			}
-			run := CLIRun{Bin: c.Self, Args: args, Dir: sand, TmpDir: filepath.Join(sand, "tmp"), Env: env}
-			if k.S {
-				run.StdinMode, run.Stdin = "pipe", []byte(logLine+"\n")
-			}
-			before := snapshotDir(sand, nil)
-			r, err := runCLI(run)
-			if err != nil {
-				c.HarnessError("C18: %v", err)
-				return
-			}
-			after := snapshotDir(sand, nil)
-			rl, _ := os.ReadFile(reqLog)
-			nreq := strings.Count(string(rl), "\n")
-			c.Eval(1)
-			c.P.Transitions++
-			c.Distinct(fmt.Sprintf("%d/%d", mask, pre))
-			classes[class]++
-			diff := snapshotDiff(before, after)
-			rejected := r.Exit != 0 || r.Signal != ""
-			desc := fmt.Sprintf("switches [%s]%s: rule %s (%s)", k, map[int]string{0: "", 1: ", output file pre-existing"}[pre], rule, class)
-			rp := map[string]any{"kind": "argv", "mask": mask, "pre_existing_output": pre == 1, "args": args, "env_keys": k.E, "stdin_piped": k.S, "rule": rule, "class": class}
-			viol := func(sym, what string) {
-				c.Outcome("model-mismatch")
-				c.Violate(class+":"+rule+":"+sym, fmt.Sprintf("%s: %s; exit %d, stderr %q, requests %d, sandbox changes %v", desc, what, r.Exit, trunc(string(r.Stderr), 160), nreq, diff), int64(popcount(mask)*2+pre), rp, nil)
-			}
-			sideEffects := func() {
-				if nreq > 0 {
-					viol("network-request", "a rejected run sent a network request")
+		k0 := c18FromMask(mask)
+		nS, nE := 1, 1
+		if k0.S {
+			nS = 2
+		}
+		if k0.E {
+			nE = len(c18EnvVars)
+		}
+		for variant := 0; variant < nS*nE; variant++ {
+			k := k0
+			k.SVar, k.EVar = variant%nS, variant/nS
+			class, rule := c18Rule(k)
+			for pre := 0; pre < 2; pre++ {
+				if pre == 1 && !k.O {
+					continue // nothing to pre-create
 				}
-				for _, d := range diff {
-					viol("side-effect:"+sideKind(d), "a rejected run changed the file system ("+d+")")
-					break
+				sand := freshDir(base, "sand")
+				os.Mkdir(filepath.Join(sand, "tmp"), 0o755)
+				os.WriteFile(filepath.Join(sand, "in.log"), []byte(logLine+"\n"), 0o644)
+				if pre == 1 {
+					os.WriteFile(filepath.Join(sand, "out.log"), []byte(c18Sentinel), 0o644)
+					os.WriteFile(filepath.Join(sand, "out.log.0"), []byte(c18Sentinel), 0o644)
 				}
-			}
-			switch class {
-			case "must-reject":
-				if !rejected {
-					viol("accepted", "the combination is not one well-defined job but the run exits 0")
-					break
-				}
-				if len(strings.TrimSpace(string(r.Stderr))) == 0 {
-					viol("no-message", "rejected without an explanatory message on stderr")
-				}
-				sideEffects()
-				c.Outcome("rejected-as-modelled")
-			case "open":
-				if rejected {
-					sideEffects()
-					c.Outcome("open-rejected")
-				} else {
-					c.Outcome("open-accepted")
-				}
-			default:
-				if rejected {
-					viol("rejected", "a well-defined job is refused")
-					break
-				}
-				outName := "out.log"
-				if k.P {
-					outName = "out.log.0"
+				os.Remove(reqLog)
+				args := []string{"redact"}
+				if k.F {
+					args = append(args, "in.log")
 				}
 				if k.O {
-					if b, err := os.ReadFile(filepath.Join(sand, outName)); err != nil || len(b) == 0 || strings.HasPrefix(string(b), "SENTINEL") {
-						viol("no-output", "the job is accepted but "+outName+" holds no redacted output")
+					args = append(args, "--outputFile", "out.log")
+				}
+				if k.Y {
+					args = append(args, "--encrypt")
+				}
+				if k.Z {
+					args = append(args, "--redactFieldsRegexp", "^(ssn|email)$")
+				}
+				if k.N {
+					args = append(args, "--redactFieldNames", "shop.orders")
+				}
+				if k.P {
+					args = append(args, "--atlasProjectId", "649c9a785e44024904135520")
+				}
+				if k.C {
+					args = append(args, "--atlasClusterName", "mycluster")
+				}
+				if k.U {
+					args = append(args, "--atlasPublicKey", script.Public)
+				}
+				if k.V {
+					args = append(args, "--atlasPrivateKey", script.Private)
+				}
+				if k.A {
+					args = append(args, "--atlasLogStartDate", "1700000000")
+				}
+				if k.B {
+					args = append(args, "--atlasLogEndDate", "1700003600")
+				}
+				env := []string{"VERIF_MODE=child-cli", "VERIF_ATLAS_SCRIPT=" + scriptPath, "VERIF_ATLAS_LOG=" + reqLog}
+				if k.E {
+					ev := c18EnvVars[k.EVar]
+					switch ev.pub {
+					case 1:
+						env = append(env, "ATLAS_PUBLIC_KEY="+script.Public)
+					case 2:
+						env = append(env, "ATLAS_PUBLIC_KEY=")
+					}
+					switch ev.prv {
+					case 1:
+						env = append(env, "ATLAS_PRIVATE_KEY="+script.Private)
+					case 2:
+						env = append(env, "ATLAS_PRIVATE_KEY=")
+					}
+				}
+				run := CLIRun{Bin: c.Self, Args: args, Dir: sand, TmpDir: filepath.Join(sand, "tmp"), Env: env}
+				if k.S {
+					run.StdinMode, run.Stdin = "pipe", []byte(logLine+"\n")
+					if k.SVar == 1 {
+						run.StdinMode = "file"
+						os.WriteFile(filepath.Join(sand, ".stdin"), run.Stdin, 0o644) // before the snapshot: the runner rewrites the same bytes
+					}
+				}
+				before := snapshotDir(sand, nil)
+				r, err := runCLI(run)
+				if err != nil {
+					c.HarnessError("C18: %v", err)
+					return
+				}
+				after := snapshotDir(sand, nil)
+				rl, _ := os.ReadFile(reqLog)
+				nreq := strings.Count(string(rl), "\n")
+				c.Eval(1)
+				c.P.Transitions++
+				c.Distinct(fmt.Sprintf("%d/%d/%d", mask, variant, pre))
+				classes[class]++
+				diff := snapshotDiff(before, after)
+				rejected := r.Exit != 0 || r.Signal != ""
+				desc := fmt.Sprintf("switches [%s]%s: rule %s (%s)", k, map[int]string{0: "", 1: ", output file pre-existing"}[pre], rule, class)
+				rp := map[string]any{"kind": "argv", "mask": mask, "pre_existing_output": pre == 1, "args": args, "env_keys": k.E, "env_variant": c18EnvVars[k.EVar].name, "stdin_piped": k.S, "stdin_regular_file": k.SVar == 1, "rule": rule, "class": class}
+				viol := func(sym, what string) {
+					c.Outcome("model-mismatch")
+					c.Violate(class+":"+rule+":"+sym, fmt.Sprintf("%s: %s; exit %d, stderr %q, requests %d, sandbox changes %v", desc, what, r.Exit, trunc(string(r.Stderr), 160), nreq, diff), int64(popcount(mask)*2+pre), rp, nil)
+				}
+				sideEffects := func() {
+					if nreq > 0 {
+						viol("network-request", "a rejected run sent a network request")
+					}
+					for _, d := range diff {
+						viol("side-effect:"+sideKind(d), "a rejected run changed the file system ("+d+")")
 						break
 					}
-				} else if len(r.Stdout) == 0 {
-					viol("no-output", "the job is accepted but nothing is written to stdout")
-					break
 				}
-				c.Outcome("accepted-as-modelled")
+				switch class {
+				case "must-reject":
+					if !rejected {
+						viol("accepted", "the combination is not one well-defined job but the run exits 0")
+						break
+					}
+					if len(strings.TrimSpace(string(r.Stderr))) == 0 {
+						viol("no-message", "rejected without an explanatory message on stderr")
+					}
+					sideEffects()
+					c.Outcome("rejected-as-modelled")
+				case "open":
+					if rejected {
+						sideEffects()
+						c.Outcome("open-rejected")
+					} else {
+						c.Outcome("open-accepted")
+					}
+				default:
+					if rejected {
+						viol("rejected", "a well-defined job is refused")
+						break
+					}
+					outName := "out.log"
+					if k.P {
+						outName = "out.log.0"
+					}
+					if k.O {
+						if b, err := os.ReadFile(filepath.Join(sand, outName)); err != nil || len(b) == 0 || strings.HasPrefix(string(b), "SENTINEL") {
+							viol("no-output", "the job is accepted but "+outName+" holds no redacted output")
+							break
+						}
+					} else if len(r.Stdout) == 0 {
+						viol("no-output", "the job is accepted but nothing is written to stdout")
+						break
+					}
+					c.Outcome("accepted-as-modelled")
+				}
 			}
 		}
 	}
@@ -261,7 +310,7 @@ func c18Post(c *Ctx, m *Part) {
 func init() {
 	register(&PropDef{
 		ID: "C18", Level: "model_checking",
-		Rule:        "all 8192 presence/absence combinations of {file argument, piped stdin, --outputFile, --encrypt, --redactFieldsRegexp, --redactFieldNames, --atlasProjectId, --atlasClusterName, --atlasPublicKey, --atlasPrivateKey, --atlasLogStartDate, --atlasLogEndDate, key pair in the environment}, each with and (when -o is given) without a pre-existing output file holding sentinel bytes, run through the real main() with cobra/pflag wiring (harness binary in child-cli mode: only http.DefaultTransport is replaced by a scripted, well-behaved Atlas endpoint that logs requests) in a fresh sandbox (own cwd, HOME, TMPDIR); reference model = rule table of DESIGN.md C18 (must-reject / open / must-accept); must-reject => non-zero exit, non-empty stderr, sandbox snapshot (path, type, mode, size, SHA-256) unchanged, empty request log; must-accept => exit 0 and redacted output present; a rejection of an open combination must be side-effect free as well. states = combinations, transitions = runs, every one compared with the model",
+		Rule:        "all 8192 presence/absence combinations (64 512 runs with the variants) of {file argument, piped stdin, --outputFile, --encrypt, --redactFieldsRegexp, --redactFieldNames, --atlasProjectId, --atlasClusterName, --atlasPublicKey, --atlasPrivateKey, --atlasLogStartDate, --atlasLogEndDate, key pair in the environment}, crossed with the WAYS two of them can be present (stdin: a pipe or a redirected regular file; environment: both variables set, only one of them set, one or both set to the empty string - a half of the pair counts only when its value is non-empty), each with and (when -o is given) without a pre-existing output file holding sentinel bytes, run through the real main() with cobra/pflag wiring (harness binary in child-cli mode: only http.DefaultTransport is replaced by a scripted, well-behaved Atlas endpoint that logs requests) in a fresh sandbox (own cwd, HOME, TMPDIR); reference model = rule table of DESIGN.md C18 (must-reject / open / must-accept); must-reject => non-zero exit, non-empty stderr, sandbox snapshot (path, type, mode, size, SHA-256) unchanged, empty request log; must-accept => exit 0 and redacted output present; a rejection of an open combination must be side-effect free as well. states = combinations, transitions = runs, every one compared with the model",
 		Assumptions: []string{"combinations the statement does not decide (Atlas key / date flags next to a real input; Atlas mode with --encrypt) are open: either outcome is accepted", "flag VALUES are fixed well-formed ones; only presence is enumerated"},
 		Run:         c18Run, Post: c18Post,
 	})
